@@ -32,9 +32,15 @@ CONSTANTS
   Refilter,        \* FALSE = code: ClientMsg appends to MsgTxsFiltered by looking at the
                    \*   records received SO FAR (a queued auto mutation whose execution
                    \*   is canceled later stays listed); TRUE = repaired (re-filter)
-  NextBounded      \* FALSE = code: hNextTx() indexes MsgTxs[hNextTxIdx()] and
+  NextBounded,     \* FALSE = code: hNextTx() indexes MsgTxs[hNextTxIdx()] and
                    \*   hFilterTxCursor1 returns cursor+1 unchecked when no filter of the
                    \*   group is active; TRUE = repaired (nil past the last record)
+  CacheMisses      \* FALSE = code: TxIndex stores in its per-client cache only what the
+                   \*   scan FOUND (an id that is looked up before its record arrives is
+                   \*   scanned for again next time); TRUE = a cache that also remembers
+                   \*   misses -- NOT the code: used to show that the transition-id formulas
+                   \*   depend on it (sensitivity) and to let TLC produce the miss / ingest /
+                   \*   hit schedules that are replayed on the real debugger
 
 Min(S) == CHOOSE x \in S : \A y \in S : x <= y
 Max(S) == CHOOSE x \in S : \A y \in S : x >= y
@@ -209,8 +215,22 @@ CodeTxAtMachTime(sums, s) ==
 ScanTxAtMachTime(sums, s) ==
   LET S == {k \in 1..Len(sums) : sums[k] = s} IN IF S = {} THEN 0 ELSE Min(S) - 1
 
-(* TxIndex (the cache only ever stores what the scan returned) *)
+(* TxIndex.  The store only GROWS between two look-ups of the same id (records *)
+(* are appended by ClientMsg; the GC handler that trims it calls ClearCache),   *)
+(* so the declarative meaning is always the scan over the ids held NOW.         *)
 ScanTxIndex(ids, id) == DIndex(ids, id)
+(* transcription: the per-client txCache is a set of <<id, index>> pairs; a hit *)
+(* is answered from it, otherwise the loop over MsgTxs runs and stores what it  *)
+(* found                                                                        *)
+TxCached(cache, id) == \E p \in cache : p[1] = id
+CodeTxIndex(cache, ids, id) ==
+  IF TxCached(cache, id)
+  THEN [res |-> (CHOOSE p \in cache : p[1] = id)[2], cache |-> cache]
+  ELSE LET i == DIndex(ids, id)
+       IN  IF i >= 0 THEN [res |-> i, cache |-> cache \cup {<<id, i>>}]
+           ELSE [res |-> -1, cache |-> IF CacheMisses THEN cache \cup {<<id, -1>>} ELSE cache]
+(* every cached answer is the answer of a scan over the ids held now *)
+CacheSound(cache, ids) == \A p \in cache : p[2] = ScanTxIndex(ids, p[1])
 
 (* HadErrSinceTx *)
 CodeHadErrSinceTx(errors, tx, dist) ==
@@ -265,9 +285,33 @@ FilterPass(F, sch, recs, diffs, upto, idx) ==
       /\ ~("FilterEmptyTx" \in F /\ diffs[idx + 1] = 0 /\ ~tx.queued /\ tx.acc)
       /\ ~("FilterHealth" \in F /\ Len(tx.called) = 1 /\ tx.called[1] \in sch.health)
 
+(* the same function as a TRANSCRIPTION of the Go code: the if / else-if /     *)
+(* else-if chain of the three auto clauses (only the FIRST clause whose test   *)
+(* holds is entered; the third one returns false only when the executing       *)
+(* record was canceled and otherwise FALLS THROUGH), followed by INDEPENDENT   *)
+(* ifs.  FilterPass above is the declarative meaning (a record is shown iff no *)
+(* active filter names one of its features); MCDebugger's "filter" model       *)
+(* compares the two for every set of filters and every kind of record.         *)
+CodeFilterTx(F, sch, recs, diffs, upto, idx) ==
+  LET tx == recs[idx + 1]
+      view == SubSeq(recs, 1, upto)
+      autoChain ==   \* TRUE: one of the chain's "return false" was reached
+        IF "FilterAutoTx" \in F /\ tx.auto THEN TRUE
+        ELSE IF "FilterAutoCanceledTx" \in F /\ tx.auto /\ ~tx.acc THEN TRUE
+        ELSE IF "FilterAutoCanceledTx" \in F /\ tx.auto /\ tx.queued
+        THEN LET ex == ExecutedBy(view, idx) IN ex # -1 /\ ~view[ex + 1].acc
+        ELSE FALSE
+  IN  IF autoChain THEN FALSE
+      ELSE IF "FilterCanceledTx" \in F /\ ~tx.acc THEN FALSE
+      ELSE IF "FilterQueuedTx" \in F /\ tx.queued THEN FALSE
+      ELSE IF "FilterChecks" \in F /\ tx.check THEN FALSE
+      ELSE IF "FilterEmptyTx" \in F /\ diffs[idx + 1] = 0 /\ ~tx.queued /\ tx.acc THEN FALSE
+      ELSE IF "FilterHealth" \in F /\ Len(tx.called) = 1 /\ tx.called[1] \in sch.health THEN FALSE
+      ELSE TRUE
+
 (* hFilterClientTxs: the full re-filter *)
 Refiltered(F, sch, recs, diffs) ==
-  SortedAsc({i \in 0..(Len(recs) - 1) : FilterPass(F, sch, recs, diffs, Len(recs), i)})
+  SortedAsc({i \in 0..(Len(recs) - 1) : CodeFilterTx(F, sch, recs, diffs, Len(recs), i)})
 
 (* hIsTxSkipped *)
 Skipped(F, filtered, idx) == CodeFiltersActive(F) /\ ~DHas(filtered, idx)
@@ -308,6 +352,11 @@ DoBack(v, n, k) == [v EXCEPT !.cursor = FilterCursor(v.F, v.filtered, n, v.curso
 ScrollEnabled(v, n, c1) == c1 > 0 /\ n >= c1
 DoScroll(v, n, c1) ==
   [v EXCEPT !.cursor = FilterCursor(v.F, v.filtered, n, v.cursor, c1, FALSE), !.tail = FALSE]
+(* ScrollToTxEnter / ScrollToTxState by transition id: TxIndex is asked in the *)
+(* negotiation (refused when it answers -1) and again in the handler.          *)
+DoScrollId(v, n, cache, ids, id) ==
+  LET r == CodeTxIndex(cache, ids, id)
+  IN  [v |-> IF r.res > -1 THEN DoScroll(v, n, r.res + 1) ELSE v, cache |-> r.cache, res |-> r.res]
 (* ToolTail: TailModeState jumps to the last shown record *)
 DoTail(v, n) ==
   IF v.tail THEN [v EXCEPT !.tail = FALSE]
@@ -332,7 +381,7 @@ DoIngest(v, sch, recs, diffs, k) ==
   LET n0 == Len(recs) - k
       \* each new record is judged against the records received up to it
       inc == SortedAsc({i \in n0..(Len(recs) - 1) :
-                          FilterPass(v.F, sch, recs, diffs, IF Refilter THEN Len(recs) ELSE i + 1, i)})
+                          CodeFilterTx(v.F, sch, recs, diffs, IF Refilter THEN Len(recs) ELSE i + 1, i)})
       fl == IF Refilter /\ CodeFiltersActive(v.F) THEN Refiltered(v.F, sch, recs, diffs)
             ELSE v.filtered \o inc
       c == IF v.tail THEN FilterCursor(v.F, fl, Len(recs), v.cursor, Len(recs), TRUE) ELSE v.cursor
@@ -367,6 +416,22 @@ FilteredSound(v, sch, recs, diffs) ==
   SpecFiltersActive(v.F) =>
      \A k \in 1..Len(v.filtered) :
         v.filtered[k] < Len(recs) => FilterPass(v.F, sch, recs, diffs, Len(recs), v.filtered[k])
+
+(* ... and, weaker, at EVERY moment (also right after an ingestion, where the  *)
+(* code judges a record only against the records received up to it): what the  *)
+(* filtered view lists passes the active filters judged on the records up to   *)
+(* the listed one.  This leaves out exactly the forward-looking clause (a       *)
+(* queued auto mutation whose execution is canceled by a LATER record).         *)
+FilteredSoundPrefix(v, sch, recs, diffs) ==
+  SpecFiltersActive(v.F) =>
+     \A k \in 1..Len(v.filtered) :
+        v.filtered[k] < Len(recs) => FilterPass(v.F, sch, recs, diffs, v.filtered[k] + 1, v.filtered[k])
+
+(* a jump by transition id shows the transition a scan finds, when it can be   *)
+(* shown (no filter state on, or the filtered view lists it)                   *)
+JumpLands(v, ids, id) ==
+  LET i == ScanTxIndex(ids, id)
+  IN  (i >= 0 /\ (v.F = {} \/ DHas(v.filtered, i))) => v.cursor = i + 1
 
 Shown(v, sch, recs, diffs) ==
   /\ v.cursor > 0 /\ v.cursor <= Len(recs)
